@@ -244,8 +244,10 @@ var CommandFeatures = []Feature{
 		alt("emptyvals", `{retry: {}, artifact_paths: [], skip: ""}`, `{retry: {}, artifact_paths: [], skip: ""}`),
 		// integers and floats in the spellings YAML allows: the value is what counts
 		{Name: "number-spellings", In: Map("oct", IntRaw("010", 8), "perm", IntRaw("0644", 420), "oct2", IntRaw("0o17", 15), "hex", IntRaw("0x1F", 31), "us", IntRaw("1_000", 1000), "plus", IntRaw("+5", 5),
-			"bin", IntRaw("0b11", 3), "neg", IntRaw("-0x10", -16), "exp", FltRaw("1e3", 1000), "dot", FltRaw(".5", 0.5), "in", Seq(IntRaw("007", 7), Map("k", IntRaw("0777", 511)))),
-			Out: Map("oct", Int(8), "perm", Int(420), "oct2", Int(15), "hex", Int(31), "us", Int(1000), "plus", Int(5), "bin", Int(3), "neg", Int(-16), "exp", Flt(1000), "dot", Flt(0.5), "in", Seq(Int(7), Map("k", Int(511))))},
+			"bin", IntRaw("0b11", 3), "neg", IntRaw("-0x10", -16), "exp", FltRaw("1e3", 1000), "dot", FltRaw(".5", 0.5), "in", Seq(IntRaw("007", 7), Map("k", IntRaw("0777", 511))),
+			"max", Int(9223372036854775807), "min", Int(-9223372036854775808), "u63", BigUint("9223372036854775808"), "u64", Seq(BigUint("18446744073709551615"))),
+			Out: Map("oct", Int(8), "perm", Int(420), "oct2", Int(15), "hex", Int(31), "us", Int(1000), "plus", Int(5), "bin", Int(3), "neg", Int(-16), "exp", Flt(1000), "dot", Flt(0.5), "in", Seq(Int(7), Map("k", Int(511))),
+			"max", Int(9223372036854775807), "min", Int(-9223372036854775808), "u63", BigUint("9223372036854775808"), "u64", Seq(BigUint("18446744073709551615")))},
 		// keys that would name another kind of step are ordinary extra keys of a command step, wherever they are written
 		alt("kind-keys", `{wait: null, block: b2, trigger: t2, group: null, steps: []}`, `{wait: null, block: b2, trigger: t2, group: null, steps: []}`),
 		{Name: "timestamp", In: Map("when", Time("2002-08-15T01:02:03Z")), Out: Map("when", Time("2002-08-15T01:02:03Z"))},
